@@ -2,7 +2,7 @@
     named_schemas dictionary (the later ones refer to the types of the earlier ones by name
     only), and what the public operations then see.  Executable definitions only. *)
 From Coq Require Import String Ascii.
-From FA Require Import model.Base model.Json model.Parse model.SchemaSpec model.Inline model.Canon.
+From FA Require Import model.Base model.Json model.Parse model.SchemaSpec model.Inline model.Canon model.Repo.
 Open Scope string_scope.
 
 (* parsed = [parse_schema(s, named_schemas) for s in pieces]; returns the parsed pieces (first
@@ -83,4 +83,47 @@ Definition pw_check (pieces : list json) (raw : json) : bool :=
   | POk a, POk b, POk (p, t) =>
       String.eqb a b && match inline t p with POk q => closed q | _ => false end
   | _, _, _ => false
+  end.
+
+(** ---- the general statement (proofs/PiecewiseInlineProofs.v): named types parsed separately ----
+    Each child piece is ONE named type (with whatever it contains) written without the parser's
+    markers; the parent refers to the children by name; the all-in-one schema is the parent with
+    every child written inline at its first use ([ifu_rec] over the children as a repository). *)
+Definition keys_free (ex : list string) (kv : list (string * json)) : bool :=
+  forallb (fun p => negb (mem (fst p) ex)) kv.
+
+(* no "__fastavro_parsed" / "__named_schemas" key at the top level (or in the members of a top-level union) *)
+Definition markerfree : json -> bool :=
+  jfold (fun _ => true) (fun _ rs => forallb (fun b => b) rs) (fun kv _ => keys_free MARKER_KEYS kv).
+
+Definition is_named_kv (kv : list (string * json)) : bool :=
+  type_is kv "record" || type_is kv "error" || type_is kv "enum" || type_is kv "fixed".
+
+Definition piece_ok (c : json) : bool :=
+  match c with JObj kv => is_named_kv kv && keys_free MARKER_KEYS kv | _ => false end.
+Definition piece_name (c : json) : string :=
+  match c with JObj kv => spec_fullname "" kv | _ => "" end.
+Definition repo_of (children : list json) : repo := map (fun c => (piece_name c, c)) children.
+
+(* all hypotheses and the conclusion of C12_piecewise as one closed computation *)
+Definition pw_inline_check (children : list json) (parent : json) : bool :=
+  forallb piece_ok children && markerfree parent &&
+  nodupb (concat (map (spec_names "") children) ++ spec_names "" parent) &&
+  match parse_pieces children [] with
+  | POk (_, t1) =>
+      match parse_schema (fuel_for parent) parent t1 with
+      | POk (p, t) =>
+          match ifu_rec (inline_fuel t p) (repo_of children) parent "" [] with
+          | POk (whole, _) =>
+              match parse_auto whole, inline t p with
+              | POk (pw, tw), POk q =>
+                  json_eqb (strip_markers q) (strip_markers pw) && String.eqb (canon q) (canon pw) && closed q &&
+                  negb (json_eqb whole parent)
+              | _, _ => false
+              end
+          | _ => false
+          end
+      | _ => false
+      end
+  | _ => false
   end.
